@@ -78,6 +78,7 @@ def _gen(case, ctx, path=None):
 def run_case(case, ctx):
     from sigpyproc.readers import FilReader, PFITSReader
 
+    reused = False
     if case["fseed"] % 2 == 0:
         # the path was used before in this process by ANOTHER observation (other band order, zero offset, geometry): open and read it, then overwrite
         reuse = os.path.join(ctx.tmp, f"p{case['fseed']}.sf")
@@ -88,6 +89,7 @@ def run_case(case, ctx):
                 old.read_block(0, min(5, old.header.nsamples))
                 _ = (old.header.fch1, old.header.tstart)
             del old
+            reused = True
             ctx.count("regime:path_previously_held_another_file")
         except Exception:  # noqa: BLE001
             pass
@@ -104,6 +106,21 @@ def run_case(case, ctx):
             rd = PFITSReader(path)
             whole = rd.read_block(0, rd.header.nsamples)
     except Exception as exc:  # noqa: BLE001
+        if reused:
+            # the same bytes under a name this process has never seen: if they can be read there, the refusal came from the path's history
+            import shutil
+
+            fresh = os.path.join(ctx.tmp, f"fresh{case['fseed']}.sf")
+            shutil.copyfile(path, fresh)
+            try:
+                with np.errstate(all="ignore"):
+                    rd2 = PFITSReader(fresh)
+                    rd2.read_block(0, rd2.header.nsamples)
+                ctx.evaluated()
+                ctx.violation(f"read-depends-on-what-the-path-held-before:{type(exc).__name__}", f"{lay}: the file reads in full under a fresh name but raises {fmt_exc(exc)} at a path that held another observation earlier in the process", one)
+                return
+            except Exception:  # noqa: BLE001
+                pass
         ctx.skip(f"layout refused by the reader ({lay}): {type(exc).__name__}")
         ctx.evaluated()
         return
